@@ -17,8 +17,8 @@ claimed = {
                   "The undo file goes through an in-memory file map under the engine (native replays use real files). Outside: block histories (only single steps are decided), change sets with more than one spent and one created record, building the index from a populated set, the GetAllUnspent listing, more than 3 outputs per address, SipHash collisions between addresses. "),
  "C03": dict(text="Bounded model checking of the scalar range gate of ECDSA verification (acceptance implies r, s in [1, n-1]; DER signatures with R and S of 1..33 bytes; the curve computation replaced by a stub with arbitrary verdict and x coordinate) "
                   "and of signature serialisation (Signature.Bytes is strict minimal DER and parses back for every r, s in [1, 2^256)); public-key parsing for every length and prefix (accepted implies coordinates below p, on the curve, announced parity; valid uncompressed keys are accepted), "
-                  "x-only keys, the BIP341 tweak check and the BIP340 gates (key, r < p, s < n, finite even-y nonce point), with field products / square root as uninterpreted functions and the double multiplication as an arbitrary point.",
-             ref="6/C03", note=NOTE + "The group law itself (C08 L1-L3), the signers, RFC6979 and key recovery are outside this revision; the on-curve relation is decided over uninterpreted field products, so what is shown is that the checks are made, on top of the C08 field harnesses. "),
+                  "x-only keys, the BIP341 tweak check and the BIP340 gates (key, r < p, s < n, finite even-y nonce point), with field products / square root as uninterpreted functions and the double multiplication as an arbitrary point; the RFC 6979 nonce derivation (own HMAC-SHA256) against RFC 6979 3.2 / RFC 2104 for every key, digest, extra data and the first three candidates.",
+             ref="6/C03", note=NOTE + "The group law itself (C08 L1-L3), the signers' use of the nonce and key recovery are outside this revision; the on-curve relation is decided over uninterpreted field products, so what is shown is that the checks are made, on top of the C08 field harnesses. "),
  "C14": dict(text="Bounded model checking (Int mode, HMAC-SHA512 / SHA-256 / RIPEMD-160 as injective ghost functions, public key as an uninterpreted function of the private key) of BIP32: CKDpriv for every key, chain code and index "
                   "(HMAC input layout hardened / normal, child = (IL + k) mod n zero-padded, chain code, depth, fingerprint, index), CKDpub (same HMAC input, tweak passed to the point addition, hardened indexes refused), "
                   "extended-key serialisation layout / checksum / parse-back, WIF export/import round trip; the key list of a type-4 wallet (make_wallet): i-th key = child B+i of the configured path with the matching label, out-of-range indexes refused.",
